@@ -75,6 +75,17 @@ pub fn run(ctx: &mut Ctx) {
         if mode > 0 {
             ctx.count("scenarios_rewriting_an_opened_archive");
         }
+        if i % 4 == 1 {
+            // a sibling archive (same ids, sizes, settings and metadata, other tile bytes) written completely on this thread
+            // right before, and a few failed writes: nothing of them may surface in a torn image of the next write
+            let mut sib = l.clone();
+            for c in sib.tiles.values_mut() {
+                *c = std::rc::Rc::new(c.iter().map(|b| b ^ 0xA5).collect());
+            }
+            let _ = guard(|| crate::checks::common::write_sync(sib.build()));
+            crate::checks::common::failing_calls_before(&mut ctx.rng("c17.before", i), None);
+            ctx.count("writes_preceded_by_a_sibling_archive");
+        }
         // record the write
         let (res, log, image) = if asyncm {
             let mut s = AInst::recording(Vec::new());
